@@ -32,13 +32,14 @@ const char* const kFaultNames[] = { "chunked_read", "short_read", "eintr_read", 
 enum ProbeId { P_returned, P_threw_std_exception, P_threw_in_setup, P_file_source_read, P_env_source_read, P_argfile_argument_read,
                P_eio_while_reading, P_read_after_short_read, P_progname_without_slash, P_progname_len_0_or_1,
                P_progname_long, P_progname_only_slashes, P_double_dash_word, P_control_char_word, P_punct_only_word,
-               P_nul_in_file, P_long_line_in_file, P_usage_printed, P_subgroup, P_evaluated_twice, P_many_words, P_groups_evaluation };
+               P_nul_in_file, P_long_line_in_file, P_usage_printed, P_subgroup, P_evaluated_twice, P_many_words, P_groups_evaluation,
+               P_nested_argument_files };
 const char* const kProbeNames[] = { "evaluation_returned", "threw_std_exception", "threw_in_setup", "file_source_read",
                "env_source_read", "argument_file_argument_read", "eio_while_reading_a_source", "read_after_short_read",
                "program_name_without_slash", "program_name_of_length_0_or_1", "program_name_longer_than_200",
                "program_name_only_slashes", "double_dash_word", "control_character_word", "punctuation_only_word",
                "nul_byte_in_file", "line_longer_than_1000_in_file", "usage_printed", "sub_group", "same_handler_evaluated_twice",
-               "more_than_12_words", "two_handlers_through_groups_singleton" };
+               "more_than_12_words", "two_handlers_through_groups_singleton", "argument_files_opened_three_or_more_times" };
 
 using recipes::randomBytes;
 using recipes::punctWord;
@@ -61,8 +62,18 @@ std::string sourceText( Rng& rng, const recipes::Built& built, bool allow_nul, b
    const size_t  nlines = static_cast< size_t>( rng.below( 6));
    for (size_t l = 0; l < nlines; ++l)
    {
-      switch (rng.below( 8))
+      switch (rng.below( 9))
       {
+      case 8:
+      {
+         // a source that names an argument file: the file itself (an argument
+         // file may then include itself, directly or through the other file),
+         // something that is not there, a directory
+         static const char* const  targets[] = { "/simfs/cfg/args.txt", "/simfs/cfg/args.txt", "/simfs/cfg/none.txt", "/simfs/cfg",
+                                                 "/simfs/home/u/.progargs/prog.pa" };
+         text += std::string( rng.chance( 1, 4) ? "--arg-file=" : "--arg-file ") + targets[ rng.below( 5)];
+         break;
+      }
       case 0: text += "# a comment"; break;
       case 1: break;
       case 2: text += randomBytes( rng, 1 + rng.below( 40), allow_nul); break;
@@ -449,6 +460,7 @@ public:
       if (rep.calls[ fs::ccRead] > 0 && (cfg.flags & Handler::hfReadProgArg) && file_state == 1) st.probe( P_file_source_read);
       if (rep.calls[ fs::ccRead] > 0 && cfg.arg_file_arg) st.probe( P_argfile_argument_read);
       if (env_state == 2 && ((cfg.flags & Handler::hfEnvVarArgs) || cfg.named_env)) st.probe( P_env_source_read);
+      if (rep.calls[ fs::ccOpen] >= 3) st.probe( P_nested_argument_files);
 
       uint64_t  oc = 0;
       if (res.ok())
